@@ -66,6 +66,25 @@ CLAIMS.update({
             'DESIGN.md section 5 C15', 'geometry'),
 })
 
+OBJ_NOTE = ('Trusts TLC, the token catalogue (each token is one Python value per descriptor kind) and the projection of real objects '
+            '(parameters by identity, dict contents, partition of dict identities). Values outside the catalogue are not explored.')
+CLAIMS.update({
+    'C16': ('model_checking',
+            'Objects.tla (heap of region objects whose meta/visual are references to dict objects) is model-checked with two slots: '
+            'copies get fresh identities and equal contents, copy-with-changes differs exactly in the named field, mutations never '
+            'show in the other object, Eq is reflexive/symmetric and sees every field (unit re-expressions and sub-tolerance pixel '
+            'offsets are the same value); every state is one implementation test incl. ==/!= both ways and copy.deepcopy; Lists.tla '
+            'does the same for sliced/copied Regions lists.',
+            OBJ_NOTE, 'TLA+ heap model + TLC, one implementation test per reachable state (spec->code)', 'DESIGN.md section 5 C16', 'objects'),
+    'C17': ('model_checking',
+            'Objects.tla: AllValid and RejectIsStutter are invariants over constructions (every class, valid and one-bad-argument '
+            'lists), descriptor assignments with every catalogue token, deletions, all dict mutation entry points and whole-dict '
+            'assignment; Lists.tla over Regions list operations. Every reachable state (pre, act, out, post) is replayed against the '
+            'real classes; TLC -simulate histories of depth 20 are replayed as call sequences.',
+            OBJ_NOTE + ' Open findings: annulus inner<outer not enforced on assignment; TextRegion.text deletable.',
+            'TLA+ heap model + TLC, one implementation test per reachable state, simulated histories replayed', 'DESIGN.md section 5 C17', 'objects'),
+})
+
 PENDING_REASON = ('specification module for this property is designed in DESIGN.md but its TLA+ module and '
                   'conformance binding are not built yet; not claimed until they are')
 
@@ -125,6 +144,8 @@ ENGINES = [
 ENGINES.append({'name': 'geometry', 'path': 'specs/Geometry.tla specs/MC_Geometry.tla specs/Trace_Geometry.tla vf/geom.py '
                 'vf/geomgen.py vf/engines/c01.py c02.py c04.py c08.py c15.py', 'serves_properties': ['C01', 'C02', 'C04', 'C08', 'C15'],
                 'kind_free_text': 'exact integer lattice model of pixel-region geometry; TLC exhaustive on families, replay, trace validation'})
+ENGINES.append({'name': 'objects', 'path': 'specs/Objects.tla specs/MC_Objects.tla specs/Lists.tla vf/objs.py vf/engines/c16.py c17.py lists.py',
+                'serves_properties': ['C16', 'C17'], 'kind_free_text': 'heap model with identity; every state an implementation test'})
 NA = {}
 
 
